@@ -218,6 +218,18 @@ def run(ctx):
     fam["reuse"] = [p for p in plans_from_tlc(gr.out) if reuse_class(p)]
     if len(fam["reuse"]) < 300:
         raise MachineryError("reuse family produced only %d scenarios" % len(fam["reuse"]))
+    # cycle family: use with parameters A, re-initialise with parameters B (other dictionary size / preset) and let
+    # an allocation fail, re-initialise with A and use again - what a coder keeps across re-initialisations must
+    # stay consistent with what it has really allocated
+    gc = tlc.run("GenLifecycle", cfg="GenLifecycleCycle.cfg", workers=1, timeout=600)
+    ctx.add_tlc("GenLifecycle(cycle)", gc, exhaustive=True)
+    def cycle_class(p):
+        ops = [o["op"] for o in p]
+        return len(p) >= 5 and ops[:2] == ["Init", "CodeAll"] and ops[-1] == "CodeAll" and ops.count("Init") >= 3 \
+            and all(not (a == b == "CodeAll") for a, b in zip(ops, ops[1:]))
+    fam["cycle"] = [p for p in plans_from_tlc(gc.out) if cycle_class(p)]
+    if len(fam["cycle"]) < 50:
+        raise MachineryError("cycle family produced only %d scenarios" % len(fam["cycle"]))
     simh = tlc.run("GenLifecycle", cfg="GenLifecycleHnd.cfg", workers=1, timeout=600, simulate=25 if quick else 1500, depth=4,
                    seed=ctx.seed + 1)
     if simh.error:
@@ -237,10 +249,11 @@ def run(ctx):
         ru_again = [p for p in ru if len(p) == 4 and [o["op"][:4] for o in p] == ["Init", "Code", "Init", "Code"]]
         ru_rest = [p for p in ru if len(p) == 4 and p not in ru_again]
         chosen = one + must + ctx.rng.sample(hrest, 40) + ctx.rng.sample(orest, 40) + deep[:40] \
-            + ctx.rng.sample(idx_end, 50) + ctx.rng.sample(fam["flt"], 25) + ru_short + ru_again + ctx.rng.sample(ru_rest, 30)
+            + ctx.rng.sample(idx_end, 50) + ctx.rng.sample(fam["flt"], 25) + ru_short + ru_again + ctx.rng.sample(ru_rest, 30) \
+            + fam["cycle"]
         max_single, n_subsets = 60, 2
     else:
-        chosen = one + two + deep + fam["idx"] + fam["flt"] + fam["reuse"]
+        chosen = one + two + deep + fam["idx"] + fam["flt"] + fam["reuse"] + fam["cycle"]
         max_single, n_subsets = 150, 6
     # always present (both plans are in the TLC-generated set; here the decoded Index is forced to have no Records)
     chosen = chosen + [[dict(op="IndexBufferDecode", tgt="I1", empty=True), dict(op="IndexAppend", tgt="I1")],
